@@ -1017,6 +1017,22 @@ class Module(ABC):
         # Override `comp_index` to just be a consecutive list.
         all_nodes["global_comp_index"] = np.arange(len(all_nodes))
 
+        # Groups refer to rows of `.nodes`. A group which contained compartments of the
+        # modified branch contains its new compartments, and the rows behind the branch
+        # have moved.
+        for group_name, group_inds in self.base.groups.items():
+            group_inds = np.asarray(group_inds)
+            end_idx = start_idx + number_deleted
+            in_branch = (group_inds >= start_idx) & (group_inds < end_idx)
+            new_rows = np.arange(start_idx, start_idx + len(view))
+            self.base.groups[group_name] = np.concatenate(
+                [
+                    group_inds[group_inds < start_idx],
+                    new_rows if np.any(in_branch) else new_rows[:0],
+                    group_inds[group_inds >= end_idx] + len(view) - number_deleted,
+                ]
+            ).astype(int)
+
         # Update compartment structure arguments.
         ncomp_per_branch[branch_indices] = ncomp
         ncomp = int(np.max(ncomp_per_branch))
